@@ -55,6 +55,9 @@ type Svc struct {
 	// OnCtx, if set, runs (without the lock) at the start of request number n with the
 	// context the request was made with - so a harness can tell WHOSE context a shared request carries.
 	OnCtx func(ctx context.Context, n int, name string)
+	// PlainCtxErrors: when a request's context has ended the service reports a plain error that does
+	// NOT wrap the context's error (a StoreClient is free to do so; the HTTP client happens to wrap it).
+	PlainCtxErrors bool
 	count      int
 	// MaxRequests bounds the requests of one scenario (default 50000). A client
 	// that exceeds it is spinning; further requests park until Release so that
@@ -193,7 +196,7 @@ func (s *Svc) do(ctx context.Context, op, name string, old api.SecretVersion) (*
 	}
 	if err := ctx.Err(); err != nil && !over {
 		finish("error:ctx", nil)
-		return nil, fmt.Errorf("fake service: %w", err)
+		return nil, s.ctxErr(err)
 	}
 	switch b.Kind {
 	case "err":
@@ -212,7 +215,7 @@ func (s *Svc) do(ctx context.Context, op, name string, old api.SecretVersion) (*
 		select {
 		case <-ctx.Done():
 			finish("error:ctx", nil)
-			return nil, fmt.Errorf("fake service: %w", ctx.Err())
+			return nil, s.ctxErr(ctx.Err())
 		case <-s.release:
 			finish("error:released", nil)
 			return nil, errors.New("fake service: released by harness")
@@ -222,7 +225,7 @@ func (s *Svc) do(ctx context.Context, op, name string, old api.SecretVersion) (*
 		select {
 		case <-ctx.Done():
 			finish("error:ctx", nil)
-			return nil, fmt.Errorf("fake service: %w", ctx.Err())
+			return nil, s.ctxErr(ctx.Err())
 		case <-s.release:
 			finish("error:released", nil)
 			return nil, errors.New("fake service: released by harness")
@@ -232,7 +235,7 @@ func (s *Svc) do(ctx context.Context, op, name string, old api.SecretVersion) (*
 			select {
 			case <-ctx.Done():
 				finish("error:ctx", nil)
-				return nil, fmt.Errorf("fake service: %w", ctx.Err())
+				return nil, s.ctxErr(ctx.Err())
 			case <-s.release:
 				finish("error:released", nil)
 				return nil, errors.New("fake service: released by harness")
@@ -287,7 +290,11 @@ type Cache struct {
 	// OnWrite, if set, is called at the start of every Write (before anything is stored) with
 	// the 1-based number of the call; it may block to model a slow disk.
 	OnWrite func(n int)
+	failing bool // every Write fails while set (SetFailing)
 }
+
+// SetFailing makes every later Write fail (true) or work again (false): a cache device that goes away.
+func (c *Cache) SetFailing(on bool) { c.mu.Lock(); c.failing = on; c.mu.Unlock() }
 
 func NewCache(initial []byte) *Cache {
 	return &Cache{data: append([]byte(nil), initial...), FailWrite: map[int]bool{}}
@@ -304,7 +311,7 @@ func (c *Cache) Write(b []byte) error {
 	c.mu.Lock()
 	defer c.mu.Unlock()
 	c.nWrite = max(c.nWrite, n)
-	if c.FailWrite[n] {
+	if c.FailWrite[n] || c.failing {
 		return errors.New("cache write failed (injected)")
 	}
 	cp := append([]byte{}, b...)
@@ -339,3 +346,13 @@ func NewClock(start int64) *Clock { return &Clock{now: start} }
 func (c *Clock) Now() time.Time  { c.mu.Lock(); defer c.mu.Unlock(); return time.Unix(c.now, 0) }
 func (c *Clock) Unix() int64     { c.mu.Lock(); defer c.mu.Unlock(); return c.now }
 func (c *Clock) Advance(s int64) { c.mu.Lock(); c.now += s; c.mu.Unlock() }
+
+func (s *Svc) ctxErr(err error) error {
+	s.mu.Lock()
+	plain := s.PlainCtxErrors
+	s.mu.Unlock()
+	if plain {
+		return errors.New("fake service: request abandoned")
+	}
+	return fmt.Errorf("fake service: %w", err)
+}
